@@ -1,7 +1,7 @@
 #!/bin/bash
 # usage: run_all.sh [tier] [seed]   -- runs every claimed check, prints one line each
 tier=${1:-quick}; seed=${2:-0}
-cd /verif
+cd "$(dirname "$0")/.."
 for c in C01 C02 C03 C04 C05 C06 C07 C08 C09 C10 C11 C12 C13 C14 C15 C16 C17 C18 C19 C20; do
   out=$(VERIF_SEED=$seed /venv/bin/python -m dtverif.run $c --tier $tier 2>&1); rc=$?
   echo "$c rc=$rc $(echo "$out" | grep -E '^SUMMARY' | cut -c1-200)"
